@@ -6,6 +6,7 @@ package gldap
 import (
 	"context"
 	"crypto/tls"
+	"errors"
 	"fmt"
 	"net"
 	"net/netip"
@@ -172,6 +173,7 @@ func (s *Server) Run(addr string, opt ...Option) error {
 	s.logger.Info("listening", "op", op, "addr", s.listener.Addr())
 
 	connID := 0
+	var acceptDelay time.Duration
 	for {
 		connID++
 		select {
@@ -192,8 +194,29 @@ func (s *Server) Run(addr string, opt ...Option) error {
 				s.logger.Debug("accept on closed conn")
 				return nil
 			}
+			var te interface{ Temporary() bool }
+			if errors.As(err, &te) && te.Temporary() {
+				// a transient failure (e.g. running out of file descriptors)
+				// must not end the server: back off and accept again
+				if acceptDelay == 0 {
+					acceptDelay = 5 * time.Millisecond
+				} else {
+					acceptDelay *= 2
+				}
+				if acceptDelay > time.Second {
+					acceptDelay = time.Second
+				}
+				s.logger.Error("error accepting conn; retrying", "op", op, "err", err.Error(), "delay", acceptDelay)
+				select {
+				case <-time.After(acceptDelay):
+				case <-s.shutdownCtx.Done():
+				}
+				connID--
+				continue
+			}
 			return fmt.Errorf("%s: error accepting conn: %w", op, err)
 		}
+		acceptDelay = 0
 		s.logger.Debug("new connection accepted", "op", op, "conn", connID)
 		conn, err := newConn(s.shutdownCtx, connID, c, s.logger, s.router)
 		if err != nil {
